@@ -8,6 +8,8 @@ import CqlVerif.Drv.Gate
 import CqlVerif.Drv.Prep
 import CqlVerif.Drv.Events
 import CqlVerif.Drv.Ks
+import CqlVerif.Drv.Reconn
+import CqlVerif.Drv.Topo
 open CqlVerif.Drv
 
 def dispatch (stream op real : String) : Verdict :=
@@ -22,6 +24,8 @@ def dispatch (stream op real : String) : Verdict :=
   | "prep" => PrepStream.handle op real
   | "events" => EventsStream.handle op real
   | "ks" => KsStream.handle op real
+  | "reconn" => ReconnStream.handle op real
+  | "topo" => TopoStream.handle op real
   | _ => { kind := "diff", detail := s!"unknown stream {stream}" }
 
 partial def loop (h : IO.FS.Stream) (out : IO.FS.Stream) : IO Unit := do
